@@ -685,18 +685,31 @@ func PrintAllTypes() {
 func PrintTargetClassExtends() {
 	className := getTargetClass()
 
-	for classNode, parents := range base.ClassInheritanceMap {
-		if classNode.Class == className {
-			for _, parent := range parents {
-				switch parent.Class {
-				case "":
-					fmt.Println("Object")
-				default:
-					fmt.Println(parent.Class)
-				}
-			}
+	// several frames can hold a class of this name: the one whose frame sorts
+	// first is reported, whatever order the map hands them out in
+	var target *base.ClassNode
 
-			return
+	for classNode := range base.ClassInheritanceMap {
+		if classNode.Class != className {
+			continue
+		}
+
+		if target == nil || classNode.Frame < target.Frame {
+			node := classNode
+			target = &node
+		}
+	}
+
+	if target == nil {
+		return
+	}
+
+	for _, parent := range base.ClassInheritanceMap[*target] {
+		switch parent.Class {
+		case "":
+			fmt.Println("Object")
+		default:
+			fmt.Println(parent.Class)
 		}
 	}
 }
